@@ -69,8 +69,9 @@ func rgs(n, maxBlocks int) [][]int {
 }
 
 type rcase struct {
-	zones []int // -1 = no zone
-	cls   []int
+	zones   []int // -1 = no zone
+	cls     []int
+	noToken uint // bit i: instance i is registered without tokens
 }
 
 func (c rcase) String() string {
@@ -79,6 +80,10 @@ func (c rcase) String() string {
 		z := ""
 		if c.zones[i] >= 0 {
 			z = string(rune('a' + c.zones[i]))
+		}
+		if c.noToken&(1<<i) != 0 {
+			fmt.Fprintf(&sb, "i%d[z=%q %s no tokens] ", i, z, clsName[c.cls[i]])
+			continue
 		}
 		fmt.Fprintf(&sb, "i%d[z=%q %s tok=%d] ", i, z, clsName[c.cls[i]], (i+1)*1000)
 	}
@@ -97,7 +102,11 @@ func (c rcase) desc(now time.Time) *ring.Desc {
 		if c.zones[i] >= 0 {
 			z = string(rune('a' + c.zones[i]))
 		}
-		d.Ingesters[id] = ring.InstanceDesc{Id: id, Addr: id, Zone: z, State: clsState(c.cls[i]), Timestamp: ts, Tokens: []uint32{uint32(i+1) * 1000}, RegisteredTimestamp: now.Unix()}
+		toks := []uint32{uint32(i+1) * 1000}
+		if c.noToken&(1<<i) != 0 {
+			toks = nil
+		}
+		d.Ingesters[id] = ring.InstanceDesc{Id: id, Addr: id, Zone: z, State: clsState(c.cls[i]), Timestamp: ts, Tokens: toks, RegisteredTimestamp: now.Unix()}
 	}
 	return d
 }
@@ -158,10 +167,12 @@ func maskStr(m uint) string {
 func TestC02(t *testing.T) {
 	rep := ev.NewReport("C02", "quorum-intersection")
 	maxN, maxRF := 5, 4
+	tokenlessMaxN := 4
 	if ev.Thorough() {
 		maxN, maxRF = 6, 5
+		tokenlessMaxN = 5
 	}
-	rep.Bound = fmt.Sprintf("rings of 1..%d instances (one token each at i*1000), every health-class vector over {ACTIVE at the timeout boundary, ACTIVE stale, LEAVING, PENDING, JOINING}, zone-aware: every zone assignment up to renaming with <=5 zones (every instance zoned), non-zone-aware: no zones; RF 1..%d; every start position (key just before each token)", maxN, maxRF)
+	rep.Bound = fmt.Sprintf("rings of 1..%d instances (one token each at i*1000; for rings of up to %d instances also every proper subset of them registered WITHOUT tokens), every health-class vector over {ACTIVE at the timeout boundary, ACTIVE stale, LEAVING, PENDING, JOINING}, zone-aware: every zone assignment up to renaming with <=5 zones (every instance zoned), non-zone-aware: no zones; RF 1..%d; every start position (key just before each token)", maxN, tokenlessMaxN, maxRF)
 	rep.Rule = "for each (ring, key, RF, zone-awareness) where real Get(key,Write) and real GetReplicationSetForOperation(Read) both succeed: every subset of the write set of size len-MaxErrors × every minimal answering read set (size len-MaxErrors, or all instances of #zones-MaxUnavailableZones zones) must intersect; distinct_nontrivial = distinct (write set, write MaxErrors, read set, read tolerance) combinations with tolerance > 0 on at least one side"
 	rep.Assumptions = []string{"success criteria of the executors (DoBatch: len-MaxErrors acks per key; DoUntilQuorum: len-MaxErrors results or all instances of zones-MaxUnavailableZones zones) are those checked against the real executors by C10 and C11"}
 	deadline := ev.Deadline(10 * time.Minute)
@@ -173,10 +184,17 @@ func TestC02(t *testing.T) {
 			for i := 0; i < n; i++ {
 				nCls *= numCls
 			}
-			// index space: [0, nCls) non-zone-aware ; then zone assignments × nCls
-			total := nCls * (1 + len(zoneAssign))
+			// index space: [0, nCls) non-zone-aware ; then zone assignments × nCls ; all that × the set of instances
+			// registered without tokens (every proper subset, for rings of up to tokenlessMaxN instances)
+			per := nCls * (1 + len(zoneAssign))
+			nMasks := 1
+			if n <= tokenlessMaxN {
+				nMasks = 1<<n - 1 // at least one instance keeps its token
+			}
+			total := per * nMasks
 			ok := enum.Par(total, deadline, func() bool { return rep.NumViolations() >= 20 }, func(ix int) {
-				c := rcase{zones: make([]int, n), cls: make([]int, n)}
+				c := rcase{zones: make([]int, n), cls: make([]int, n), noToken: uint(ix / per)}
+				ix %= per
 				ci := ix % nCls
 				zi := ix / nCls
 				for i := 0; i < n; i++ {
